@@ -77,6 +77,7 @@ type frame struct {
 	status    int
 	panicVal  *goPanic
 	forks     map[ssa.Instruction]int
+	phiDone   bool
 }
 
 type Interp struct {
@@ -116,6 +117,10 @@ type Interp struct {
 	curOp     string
 	sample    string
 	fnStack   []*ssa.Function
+	drawCursor int
+	sent       []sentRec
+	spec      bool // speculative (side-effect free) evaluation of a branch arm
+	merges    int
 }
 
 type RunOpts struct {
@@ -128,6 +133,8 @@ type RunOpts struct {
 	CheckPanics bool
 	TrackAccess bool
 	PanicViolation bool
+	NoMerge        bool
+	SplitMax       int // at most this many separators in a string given to strings.Split (0 = unbounded)
 }
 
 func (in *Interp) note(s string) {
@@ -146,8 +153,31 @@ func (in *Interp) unsupported(format string, a ...interface{}) {
 // choose picks one of several alternatives, each guarded by a condition.
 // Conditions need not be exclusive; infeasible ones are pruned by the solver.
 // site is used for unwinding accounting (may be nil).
+type specAbort struct{}
+
+// sentRec pairs a robust.Message appended by (*IRCServer).send with the irc.Message it renders.
+type sentRec struct {
+	reply *Obj
+	rmsg  *Obj
+	msg   Value
+}
+
 func (in *Interp) choose(conds []*Term) int {
 	b := in.b
+	if in.spec {
+		// speculation may only continue when the choice is syntactically decided
+		nlive, idx := 0, -1
+		for i, c := range conds {
+			if !c.IsFalse() {
+				nlive++
+				idx = i
+			}
+		}
+		if nlive == 1 && conds[idx].IsTrue() {
+			return idx
+		}
+		panic(specAbort{})
+	}
 	// syntactic pruning
 	live := make([]int, 0, len(conds))
 	for i, c := range conds {
@@ -243,6 +273,9 @@ func (in *Interp) assume(c *Term) {
 	if c.IsTrue() {
 		return
 	}
+	if in.spec {
+		panic(specAbort{})
+	}
 	if c.IsFalse() {
 		panic(&pathEnd{kind: "assume"})
 	}
@@ -262,6 +295,9 @@ func (in *Interp) assume(c *Term) {
 func (in *Interp) constrain(c *Term) {
 	if c.IsTrue() {
 		return
+	}
+	if in.spec {
+		panic(specAbort{})
 	}
 	in.addPC(c)
 }
@@ -308,6 +344,9 @@ func (in *Interp) concretize(t *Term, what string) uint64 {
 			}
 			if r == Unknown {
 				in.unsupported("concretize %s: solver unknown", what)
+			}
+			if v, ok := m[t.ref()]; ok {
+				return v
 			}
 			return evalTerm(t, m, map[int]uint64{})
 		})
@@ -453,7 +492,7 @@ func (in *Interp) callSSA(caller *frame, fn *ssa.Function, args []Value, binding
 	if h, ok := in.eng.intrinsic(fn); ok {
 		return h(in, caller, fn, args, pos)
 	}
-	if fn.Name() == "init" && fn.Synthetic != "" && !in.eng.interpretedFn(fn) {
+	if fn.Name() == "init" && fn.Synthetic != "" && (!in.eng.interpretedFn(fn) || (fn.Pkg != nil && skipInit[fn.Pkg.Pkg.Path()])) {
 		return nil // initializer of a library package that is not interpreted
 	}
 	if len(fn.Blocks) == 0 || !in.eng.interpretedFn(fn) {
@@ -505,7 +544,24 @@ func (in *Interp) callSSA(caller *frame, fn *ssa.Function, args []Value, binding
 	}()
 	fr.run()
 	fr.status = stComplete
+	if fn.Name() == "send" && len(args) == 3 && fn.Signature.Recv() != nil {
+		in.captureSend(args, fr.result)
+	}
 	return fr.result
+}
+
+// captureSend records the structured message behind each robust.Message that
+// (*IRCServer).send appends to a reply context (ghost state for the oracles).
+func (in *Interp) captureSend(args []Value, res Value) {
+	rp, ok1 := args[1].(PtrV)
+	out, ok2 := res.(PtrV)
+	if !ok1 || !ok2 || rp.obj == nil || out.obj == nil {
+		return
+	}
+	if n := len(in.sent); n > 0 && in.sent[n-1].rmsg == out.obj {
+		return
+	}
+	in.sent = append(in.sent, sentRec{reply: rp.obj, rmsg: out.obj, msg: args[2]})
 }
 
 // curFnName names the innermost function of the repository (not harness, not library) on the stack.
@@ -582,6 +638,9 @@ func (fr *frame) run() {
 				break
 			}
 			nphi++
+			if fr.phiDone {
+				continue
+			}
 			for i, pred := range blk.Preds {
 				if pred == fr.prevBlock {
 					phiVals = append(phiVals, fr.get(phi.Edges[i]))
@@ -589,16 +648,27 @@ func (fr *frame) run() {
 				}
 			}
 		}
-		for i := 0; i < nphi; i++ {
-			fr.env[blk.Instrs[i].(*ssa.Phi)] = phiVals[i]
+		if !fr.phiDone {
+			for i := 0; i < nphi; i++ {
+				fr.env[blk.Instrs[i].(*ssa.Phi)] = phiVals[i]
+			}
 		}
+		fr.phiDone = false
 		jumped := false
 		for _, ins := range blk.Instrs[nphi:] {
 			in.steps++
 			if in.steps > in.opts.MaxSteps {
 				panic(&pathEnd{kind: "steps", msg: "step limit"})
 			}
-			if fr.visit(ins) {
+			j := fr.visit(ins)
+			if traceOn && fr.fn.Pkg != nil && strings.HasPrefix(fr.fn.Pkg.Pkg.Path(), repoMod) {
+				if v, ok := ins.(ssa.Value); ok {
+					fmt.Fprintf(os.Stderr, "%s %s: %s = %s  => %s\n", fr.fn.Name(), in.posStr(ins.Pos()), v.Name(), ins.String(), in.showValue(fr.env[v]))
+				} else {
+					fmt.Fprintf(os.Stderr, "%s %s: %s\n", fr.fn.Name(), in.posStr(ins.Pos()), ins.String())
+				}
+			}
+			if j {
 				jumped = true
 				break
 			}
@@ -672,6 +742,9 @@ func (fr *frame) visit(instr ssa.Instruction) bool {
 		} else {
 			if fr.forks == nil {
 				fr.forks = map[ssa.Instruction]int{}
+			}
+			if !in.opts.NoMerge && fr.tryMerge(x, c) {
+				return true
 			}
 			fr.forks[x]++
 			if fr.forks[x] > in.opts.Unwind {
@@ -834,4 +907,229 @@ func (in *Interp) dbg(format string, a ...interface{}) {
 	if os.Getenv("GOSYM_DEBUG") != "" {
 		fmt.Fprintf(os.Stderr, format+"\n", a...)
 	}
+}
+
+func (in *Interp) showValue(v Value) string {
+	switch x := v.(type) {
+	case Sc:
+		return showTerm(x.T, 5)
+	case *Str:
+		return x.String()
+	case PtrV:
+		if x.obj == nil {
+			return "nil"
+		}
+		return fmt.Sprintf("&obj%d%v", x.obj.id, x.path)
+	case SliceV:
+		return fmt.Sprintf("slice(off=%d len=%d cap=%d)", x.off, x.len, x.cap)
+	case TupleV:
+		var parts []string
+		for _, e := range x.E {
+			parts = append(parts, in.showValue(e))
+		}
+		return "(" + strings.Join(parts, ", ") + ")"
+	case nil:
+		return "-"
+	}
+	return fmt.Sprintf("%T", v)
+}
+
+// ---- branch merging (if-conversion of side-effect free diamonds) ----
+
+func pureInstr(ins ssa.Instruction) bool {
+	switch x := ins.(type) {
+	case *ssa.BinOp:
+		return x.Op != token.QUO && x.Op != token.REM
+	case *ssa.UnOp:
+		return x.Op != token.ARROW
+	case *ssa.Convert, *ssa.ChangeType, *ssa.ChangeInterface, *ssa.MakeInterface, *ssa.Field, *ssa.FieldAddr,
+		*ssa.IndexAddr, *ssa.Index, *ssa.Lookup, *ssa.Extract, *ssa.DebugRef, *ssa.Slice:
+		return true
+	case *ssa.Call:
+		if bi, ok := x.Call.Value.(*ssa.Builtin); ok {
+			switch bi.Name() {
+			case "len", "cap":
+				return true
+			}
+		}
+		return false
+	}
+	return false
+}
+
+// armOK reports whether blk is a small pure block that ends with a jump to join.
+func armOK(blk, join *ssa.BasicBlock) bool {
+	if len(blk.Preds) != 1 || len(blk.Instrs) == 0 || len(blk.Instrs) > 16 {
+		return false
+	}
+	last := blk.Instrs[len(blk.Instrs)-1]
+	if _, ok := last.(*ssa.Jump); !ok || blk.Succs[0] != join {
+		return false
+	}
+	for _, ins := range blk.Instrs[:len(blk.Instrs)-1] {
+		if !pureInstr(ins) {
+			return false
+		}
+	}
+	return true
+}
+
+func (fr *frame) tryMerge(x *ssa.If, cond *Term) bool {
+	in := fr.in
+	if in.spec {
+		return false
+	}
+	blk := x.Block()
+	T, F := blk.Succs[0], blk.Succs[1]
+	var join *ssa.BasicBlock
+	var armT, armF *ssa.BasicBlock // nil = edge straight from blk
+	switch {
+	case len(T.Succs) == 1 && len(F.Succs) == 1 && T.Succs[0] == F.Succs[0] && T != F && armOK(T, T.Succs[0]) && armOK(F, F.Succs[0]):
+		join, armT, armF = T.Succs[0], T, F
+	case len(T.Succs) == 1 && T.Succs[0] == F && armOK(T, F):
+		join, armT = F, T
+	case len(F.Succs) == 1 && F.Succs[0] == T && armOK(F, T):
+		join, armF = T, F
+	default:
+		return false
+	}
+	// the join must not have other phis edges we cannot express: fine, we only
+	// set the phis for this entry.
+	saved := map[ssa.Value]Value{}
+	run := func(arm *ssa.BasicBlock) (ok bool) {
+		if arm == nil {
+			return true
+		}
+		in.spec = true
+		defer func() {
+			in.spec = false
+			if r := recover(); r != nil {
+				switch r.(type) {
+				case specAbort, *goPanic:
+					ok = false
+				case *pathEnd:
+					ok = false
+				default:
+					panic(r)
+				}
+			}
+		}()
+		for _, ins := range arm.Instrs[:len(arm.Instrs)-1] {
+			if v, isv := ins.(ssa.Value); isv {
+				if old, had := fr.env[v]; had {
+					saved[v] = old
+				}
+			}
+			fr.visit(ins)
+		}
+		return true
+	}
+	restore := func() {
+		for v, old := range saved {
+			fr.env[v] = old
+		}
+	}
+	if !run(armT) || !run(armF) {
+		restore()
+		return false
+	}
+	// phis of the join
+	predT, predF := blk, blk
+	if armT != nil {
+		predT = armT
+	}
+	if armF != nil {
+		predF = armF
+	}
+	type pv struct {
+		phi *ssa.Phi
+		v   Value
+	}
+	var vals []pv
+	for _, ins := range join.Instrs {
+		phi, ok := ins.(*ssa.Phi)
+		if !ok {
+			break
+		}
+		var vt, vf Value
+		for i, pred := range join.Preds {
+			if pred == predT {
+				vt = fr.get(phi.Edges[i])
+			}
+			if pred == predF {
+				vf = fr.get(phi.Edges[i])
+			}
+		}
+		mv, ok := in.mergeValues(cond, vt, vf)
+		if !ok {
+			restore()
+			return false
+		}
+		vals = append(vals, pv{phi, mv})
+	}
+	for _, e := range vals {
+		fr.env[e.phi] = e.v
+	}
+	in.merges++
+	fr.prevBlock, fr.block = predT, join
+	fr.phiDone = true
+	return true
+}
+
+// mergeValues builds ite(c, x, y) when the value kind allows it.
+func (in *Interp) mergeValues(c *Term, x, y Value) (Value, bool) {
+	switch a := x.(type) {
+	case Sc:
+		if b, ok := y.(Sc); ok && a.T.w == b.T.w {
+			return Sc{in.b.Ite(c, a.T, b.T)}, true
+		}
+	case *Str:
+		if b, ok := y.(*Str); ok {
+			if a == b {
+				return a, true
+			}
+			if a.Cap() > 64 || b.Cap() > 64 {
+				return nil, false
+			}
+			return in.str.Ite(c, a, b), true
+		}
+	case PtrV:
+		if b, ok := y.(PtrV); ok && ptrEqual(a, b) {
+			return a, true
+		}
+	case TimeV:
+		if b, ok := y.(TimeV); ok {
+			return in.iteTime(c, a, b)
+		}
+	case IfaceV:
+		if b, ok := y.(IfaceV); ok && a.T == nil && b.T == nil {
+			return a, true
+		}
+	case nil:
+		if y == nil {
+			return nil, true
+		}
+	}
+	return nil, false
+}
+
+// iteTime merges two abstract times into ite(c, a, b) when their kinds allow it.
+func (in *Interp) iteTime(c *Term, a, b TimeV) (Value, bool) {
+	bd := in.b
+	switch {
+	case a.Kind == TimeZero && b.Kind == TimeZero:
+		return a, true
+	case a.Kind == TimeZero:
+		return TimeV{Kind: b.Kind, V: b.V, Z: bd.Or(c, in.zflag(b))}, true
+	case b.Kind == TimeZero:
+		return TimeV{Kind: a.Kind, V: a.V, Z: bd.Or(bd.Not(c), in.zflag(a))}, true
+	case a.Kind == b.Kind:
+		z := bd.Ite(c, in.zflag(a), in.zflag(b))
+		r := TimeV{Kind: a.Kind, V: bd.Ite(c, a.V, b.V)}
+		if !z.IsFalse() {
+			r.Z = z
+		}
+		return r, true
+	}
+	return nil, false
 }
